@@ -164,6 +164,7 @@ def check(run, repo, world):
     _check_none_iff_noanswer(run, repo, world, folder, targets)
     _check_atx_drain(run, repo, world)
     _check_sequence_answers(run, repo, world)
+    _check_confirmations(run, repo, world)
 
 
 def _frame_arg_ok(world, modname, fn, a):
@@ -1222,6 +1223,11 @@ def _check_atx_drain(run, repo, world):
         if node.kind == "stmt" and node.ast is not None and \
                 assigned_names(node.ast) & main:
             w2 = frozenset(f for f in w2 if f[0] != "drained")
+            if isinstance(node.ast, ast.Assign) and isinstance(
+                    node.ast.value, ast.Call) and isinstance(
+                        node.ast.value.func, ast.Attribute) and \
+                    node.ast.value.func.attr == "read_line":
+                w2 = frozenset(f for f in w2 if f[0] != "got-line")
         return w2
     cet = cond_edge_transfer()
 
@@ -1231,6 +1237,11 @@ def _check_atx_drain(run, repo, world):
             return None
         if src.id in drain_tests and label == drain_tests[src.id][1]:
             w = w | {("drained",)}
+        if src.kind == "test" and label == "T" and isinstance(
+                src.ast, ast.Name) and src.ast.id in main:
+            # the line just read is not empty (stays true when the local is
+            # later replaced by the frame extracted from it)
+            w = w | {("got-line",)}
         return w
     W = forward_worlds(cfg, transfer, edge, max_worlds=20000)
     n_sites = 0
@@ -1261,6 +1272,31 @@ def _check_atx_drain(run, repo, world):
     if not seen_collision:
         raise AnalysisError("%s: no path on which the answer line is "
                             "recognised as a collision ('X' / 'Z')" % Q)
+    # the read loop gives the hat its full budget of reads: it is left early
+    # only with a line in hand (an answer, an 'X') - never because one read
+    # timed out, or an answer printed a little later is left in the buffer
+    # for the next command
+    n_brk = 0
+    for n in cfg.reachable:
+        if not (n.kind == "stmt" and isinstance(n.ast, ast.Break)):
+            continue
+        n_brk += 1
+        for w in W.at(n):
+            if ("got-line",) in w or any(
+                    f[0] == "cond" and f[1] in main and f[2] is True
+                    for f in w):
+                continue
+            path = W.trace(n, w)
+            run.ob("R-ATX-DRAIN", Q + "#leaves-loop-only-with-a-line", False,
+                   "the read loop is left (break) on a path that has not "
+                   "established that a line was read (%s): after a single "
+                   "timed-out read the command's answer, printed a moment "
+                   "later, stays in the serial buffer and is handed to the "
+                   "next command" % " -> ".join(
+                       "L%s" % x.lineno for x in path[-6:] if x.lineno),
+                   where(mod, n))
+            break
+    run.floor("breaks out of the hat's read loop", n_brk, 3)
     run.ob("R-ATX-DRAIN", Q, True, "", where(mod, fn),
            sample={"rule": "R-ATX-DRAIN", "function": Q,
                    "drain loops": len(drain_tests), "sites": n_sites})
@@ -1450,3 +1486,103 @@ def _atx_answer_arg(run, world, folder, mod, Q, fn, call, cv):
            "(%s): Response.__init__ raises TypeError where the command's "
            "response should be returned" % (unparse(call)[:60], show(other)),
            where(mod, call))
+
+
+def _check_confirmations(run, repo, world):
+    """LUBA: the gateway confirms every transmission, two for a send-twice
+    command.  The sender takes exactly that many from the confirmation queue
+    before it lets go of the transmit lock - one left behind is taken by the
+    next command as its own, whose answer window then opens too early."""
+    run.rule("R-CONFIRM", "LUBA send: one confirmation consumed per "
+             "transmission (2 for send-twice) on every path, none left "
+             "queued")
+    cq = SER + ".DriverLubaRs232.LubaProtocol"
+    owner, fn = _fn(world, cq, "send_dali_command")
+    mod = repo.mod(SER)
+    Q = cq + ".send_dali_command"
+    txp = fn.args.args[1].arg
+    loops = [n for n in ast.walk(fn) if isinstance(n, (ast.While, ast.For))
+             and any(isinstance(c, ast.Call) and unparse(c.func).endswith(
+                 "_queue_tx_conf.get") for c in ast.walk(n))]
+    if len(loops) != 1:
+        raise AnalysisError("%s: the confirmation wait is not a single loop "
+                            "over _queue_tx_conf.get()" % Q)
+    lp = loops[0]
+    want = ("2 if %s.sendtwice else 1" % txp, "1 + %s.sendtwice" % txp,
+            "%s.sendtwice + 1" % txp, "1 + bool(%s.sendtwice)" % txp)
+    from .. import astq
+    why = []
+    escapes = [x for s_ in lp.body for x in _walk_no_nested(s_)
+               if isinstance(x, (ast.Break, ast.Return))]
+    # (a break nested in an inner loop of its own does not leave this one;
+    # there is none on the pinned tree, so any is reported)
+    if escapes:
+        why.append("the wait loop is left early by `%s` at line %s" % (
+            type(escapes[0]).__name__.lower(), escapes[0].lineno))
+    if isinstance(lp, ast.For):
+        it = lp.iter
+        okn = isinstance(it, ast.Call) and unparse(it.func) == "range" and \
+            len(it.args) == 1 and astq.canon(fn, it.args[0]) in want
+        if not okn:
+            why.append("the loop runs over `%s`, not once per transmission"
+                       % unparse(it, 60))
+    else:
+        t = lp.test
+        cnt = None
+        if isinstance(t, ast.Compare) and len(t.ops) == 1 and isinstance(
+                t.left, ast.Name) and isinstance(
+                    t.ops[0], (ast.Gt, ast.NotEq)) and unparse(
+                        t.comparators[0]) == "0":
+            cnt = t.left.id
+        elif isinstance(t, ast.Name):
+            cnt = t.id
+        if cnt is None:
+            raise AnalysisError("%s: the confirmation loop's condition `%s` "
+                                "is not a counter test" % (Q, unparse(t)))
+        inits = [n.value for n in ast.walk(fn) if isinstance(n, ast.Assign)
+                 and any(isinstance(x, ast.Name) and x.id == cnt
+                         for x in n.targets)]
+        if len(inits) != 1 or astq.canon(fn, inits[0]) not in want:
+            why.append("the counter starts at `%s`" % (
+                unparse(inits[0], 50) if inits else None))
+        # exactly one decrement on every path through the body
+        stub = ast.FunctionDef(name="iteration", args=ast.arguments(
+            posonlyargs=[], args=[], kwonlyargs=[], kw_defaults=[],
+            defaults=[]), body=list(lp.body), decorator_list=[],
+            returns=None, type_comment=None, type_params=[])
+        if escapes:
+            stub.body = [ast.Pass()]
+        cfgb = CFG(stub, may_raise=lambda n: False, name=Q + "#iteration")
+        from ..cfg import forward_worlds
+
+        def tr(node, w):
+            a = node.ast
+            if node.kind == "stmt" and isinstance(a, ast.AugAssign) and \
+                    isinstance(a.target, ast.Name) and a.target.id == cnt:
+                k = [f for f in w if f[0] == "dec"]
+                n_ = (k[0][1] if k else 0) + (
+                    1 if isinstance(a.op, ast.Sub) and unparse(
+                        a.value) == "1" else 99)
+                w = frozenset(f for f in w if f[0] != "dec") | {("dec", n_)}
+            elif node.kind == "stmt" and a is not None and any(
+                    isinstance(x, ast.Name) and x.id == cnt and isinstance(
+                        x.ctx, ast.Store) for x in ast.walk(a)):
+                w = frozenset(f for f in w if f[0] != "dec") | {("dec", 99)}
+            return w
+        Wb = forward_worlds(cfgb, tr)
+        decs = {([f[1] for f in w if f[0] == "dec"] or [0])[0]
+                for w in Wb.at(cfgb.exit)}
+        if decs != {1} and not escapes:
+            why.append("an iteration changes the counter by %s (must be "
+                       "exactly one decrement per confirmation)" % sorted(
+                           decs))
+    gets = [c for c in ast.walk(lp) if isinstance(c, ast.Call) and unparse(
+        c.func).endswith("_queue_tx_conf.get")]
+    if len(gets) != 1:
+        why.append("%d reads of the confirmation queue per iteration"
+                   % len(gets))
+    run.ob("R-CONFIRM", Q, not why,
+           "; ".join(why) + ": a send-twice command leaves a confirmation "
+           "queued (or waits for one that never comes), and the next command "
+           "takes it for its own", where(mod, lp),
+           sample={"rule": "R-CONFIRM", "function": Q})
